@@ -52,11 +52,14 @@ Section Typed.
   (* repaired Seek:
        searchVal := PrependFieldType(f.fieldType, val)
        key, _ := f.cursor.Seek(searchVal)
-       if bytes.Equal(searchVal, key) { f.key = strip(key) } else { f.Next() }            *)
+       if bytes.Equal(searchVal, key) { f.key = key[1:] } else { f.Next() }
+     key[1:] of an empty key would be a slice-bounds panic; it is only evaluated on an exact hit *)
+  Definition slice_from_1 (i : nat) (k : gobytes) : res bc :=
+    match k with Some (_ :: r) => Ok (mkBc i (Some r)) | _ => Panic end.
   Definition tr_seek (v : str) (s : bc) : res bc :=
     let sv := prepend_field_type tag v in
     let p := b_seek keys sv in
-    if gb_equal (Some sv) (snd p) then Ok (strip_of p) else tr_next (mkBc (fst p) (snd p)).
+    if gb_equal (Some sv) (snd p) then slice_from_1 (fst p) (snd p) else tr_next (mkBc (fst p) (snd p)).
   Definition tr_cursor : kcursor bc := mkK tr_next tr_seek bc_valid bc_current.
 
   (* pinned Seek:  f.key, _ = f.cursor.Seek(searchVal); if !bytes.Equal(searchVal, f.key) { f.Next() }
